@@ -20,6 +20,7 @@ func (b *sb) ev(op string, a int) *sb {
 	b.sc.evs = append(b.sc.evs, event{at: b.now, op: op, a: a})
 	return b
 }
+
 // callb: a reader's call with a Read buffer of n bytes; arr: a datagram with messages of these sizes
 func (b *sb) callb(i, n int) *sb {
 	b.sc.evs = append(b.sc.evs, event{at: b.now, op: "call", a: i, b: n})
